@@ -12,6 +12,8 @@
               cmd = name:flags:hash:outs:exp:imp:oo:deps   flags ⊆ p(hony) r(estat) g(enerator) d(eps style) or `-`, lists comma separated
               op  = w,p,cid (write, fresh stamp) | t,p (touch) | a,p,cid|-,stamp (write at a given stamp) | s,p,q (give p the stamp of q)
                     | d,p (delete) | h,c,hash | f,c,0|1 (command c succeeds / fails) | b (build) | n (build with --no-db)
+                    | g=<cmd>/<cmd>/… (graph edit: the list of build statements is replaced, command lines included; the world stays)
+                    | T=<targets> (the targets of the following builds)
               -> per build, separated by ` ; `:  R<commands executed, sorted> T<command tasks run, sorted> S<0|1 = build failed>
                  D<name=X|F|S|U|P …> O<output=content id|- …> K<name=kind ordinal of the stored command value|- …>
               (content ids are numbered in order of first appearance; `not-wf` if the manifest is not well formed) -/
@@ -106,6 +108,7 @@ def parseCmd (s : String) : Option (Command × Nat) :=
 structure St where
   m : Manifest
   w : World
+  targets : List Path := []
   table : List Content := []      -- content ids, in order of first appearance
   out : List String := []
   bad : Bool := false
@@ -126,7 +129,8 @@ def sortNats (l : List Nat) : List Nat := l.foldr insertSorted []
 
 def showList (l : List String) : String := if l.isEmpty then "." else ",".intercalate l
 
-def report (targets : List Path) (st : St) (nodb : Bool) : St :=
+def report (st : St) (nodb : Bool) : St :=
+  let targets := st.targets
   let w0 := if nodb then st.w.dropDb else st.w
   let r := buildFull st.m targets w0
   let w := r.1
@@ -144,11 +148,23 @@ def report (targets : List Path) (st : St) (nodb : Bool) : St :=
   let line := s!"R{showList (ran.map toString)} T{showList (tasks.map toString)} S{if buildFailed r.2 then 1 else 0} D{showList did} O{showList cs} K{showList kinds}"
   { st with w := w, table := table, out := st.out ++ [line] }
 
-def applyOp (targets : List Path) (st : St) (op : String) : St :=
+def applyOp (st : St) (op : String) : St :=
   let ed (e : Edit) : St := { st with w := applyEdit st.w e }
+  if op.startsWith "g=" then
+    match ((op.drop 2).toString.splitOn "/").mapM parseCmd with
+    | some cmds =>
+      let m : Manifest := { cmds := cmds.map (·.1), sem := st.m.sem }
+      if !decide m.WF then { st with bad := true }
+      else { st with m := m, w := cmds.foldl (fun w ch => applyEdit w (.setHash ch.1.name ch.2)) st.w }
+    | none => { st with bad := true }
+  else if op.startsWith "T=" then
+    match nats (op.drop 2).toString with
+    | some t => { st with targets := t }
+    | none => { st with bad := true }
+  else
   match op.splitOn "," with
-  | ["b"] => report targets st false
-  | ["n"] => report targets st true
+  | ["b"] => report st false
+  | ["n"] => report st true
   | ["w", p, c] => match p.toNat?, c.toNat? with
     | some p, some c => ed (.write p [c])
     | _, _ => { st with bad := true }
@@ -183,7 +199,7 @@ def stepWorld (line : String) : String :=
       let m : Manifest := { cmds := cmds.map (·.1), sem := encSem }
       if !decide m.WF then "not-wf" else
       let w0 := cmds.foldl (fun w ch => applyEdit w (.setHash ch.1.name ch.2)) World.empty
-      let st := (ops.splitOn " ").foldl (applyOp targets) { m := m, w := w0 }
+      let st := (ops.splitOn " ").foldl applyOp { m := m, w := w0, targets := targets }
       if st.bad then "bad-op" else " ; ".intercalate st.out
     | _, _ => "bad-op"
   | _ => "bad-op"
